@@ -96,7 +96,7 @@ struct St_exec {
     else { static const size_t special[] = {sizeof(VH), sizeof(FV), sizeof(VH) + sizeof(FV), 2 * sizeof(VH)}; size_t cut = special[k % 4]; if (cut >= sz) { r.skipped(); return; } n = sz - cut; }  // cut inside a field
     std::unique_ptr<char[]> fb(new char[n]);
     memcpy(fb.get(), buf.get(), std::min(n, sz)); for (size_t i = sz; i < n; ++i) fb[i] = 0;
-    if (n < sz) { r.count("probe.deserialize_truncated"); if (r.kf("C15-KF1")) { r.skipped(); return; } }
+    if (n < sz) r.count("probe.deserialize_truncated");
     r.count(n < sz ? "fault.buffer_truncated" : "fault.buffer_extended");
     ST target; bool refused = false;
     try { target.deserialize(fb.get(), n); } catch (const std::invalid_argument&) { refused = true; }
@@ -108,7 +108,7 @@ struct St_exec {
     ST& st = *slot[a].st; const Complex& m = slot[a].m;
     if (!HAS_F) { r.skipped(); return; }
     bool has_inf = false; for (Mask x : m.simplices()) if (m.val[x] == std::numeric_limits<double>::infinity()) has_inf = true;
-    if (has_inf) { r.count("probe.text_with_infinite_value"); if (r.kf("C15-KF2")) { r.skipped(); return; } }
+    if (has_inf) r.count("probe.text_with_infinite_value");
     st.clear_filtration(); slot[a].dirty = false;  // caller duty after modifications (the printer walks the filtration order)
     std::ostringstream os; if (mode % 2) os << std::setprecision(std::numeric_limits<double>::max_digits10);
     os << st;
